@@ -143,6 +143,13 @@ def gen_history(ctx, cfg, causes, stream="main", lo=5, hi=60):
         if H.unsafe_ids(op, s["facts"]):
             ctx.stats["%s:open-finding-trigger-calls" % stream] += 1
         if s["outcome"] != "ok":
+            ment = []
+            for fld in ("parent", "name", "rail"):
+                x = op.get(fld)
+                ment += list(x) if isinstance(x, list) else ([x] if isinstance(x, str) and x else [])
+            if "comp" in op:
+                ment.append(op["comp"]["name"])
+            cfg.prefer = list(dict.fromkeys([m for m in ment if isinstance(m, str)] + list(cfg.prefer)))[:6]
             cause = intent if intent != "valid" else "uncrafted"
             key = hashlib.sha1(json.dumps([pre["comps"], pre["links"], pre["rails"]], sort_keys=True).encode()).hexdigest()
             causes.setdefault("%s/%s" % (op["op"], cause), set()).add(key)
@@ -172,6 +179,69 @@ def trigger_history(ctx, fid):
         s = run.apply(op)
         if s["wf"]:
             return run
+    return run
+
+
+def stale_name_history(ctx):
+    """"... and later calls behave as if the rejected call had never been made", aimed: a short valid prefix, then a REJECTED call
+    that mentions a name U which does not exist yet (as a parent - alone or at any position of a PMux parent list -, as the target of
+    change_comp / del_comp / set_comp_phases), then U is brought into existence at once (as a component or as a rail) and is used at
+    once (as parent, as target) - with no other edit in between that could wash out what the rejected call left behind."""
+    rng = ctx.rng
+    cfg = G.Cfg(p_reject=0.0, p_unsafe=0.0, w_phase=0.05, p_mux=0.0)
+    run = H.Run(G.gen_init(rng, cfg), full=True)
+    for k in range(rng.randint(1, 6)):
+        op, _ = G.gen_op(rng, run.cur(), run.recorded, k + 1, cfg)
+        s = run.apply(op)
+        if s["wf"]:
+            return run
+    v = G.View(run.cur())
+    free = [x for x in H.NAMES + H.RAILS if x not in v.used]
+    nonload = [x for x in v.names if v.ctype[x] != "LOAD"]
+    if len(free) < 3 or not nonload:
+        return run
+    u, n1, n2 = rng.sample(free, 3)
+    par = rng.choice(nonload)
+    how = rng.choice(["parent", "list", "list", "list", "change", "del", "phases"])
+    if how == "parent":
+        bad = {"op": "add_comp", "parent": u, "comp": G.new_comp("iload", n1, 90), "group": "", "rail": ""}
+    elif how == "list":
+        pl = [par, u] + ([rng.choice(nonload)] if rng.random() < 0.4 else [])
+        rng.shuffle(pl)
+        bad = {"op": "add_comp", "parent": list(dict.fromkeys(pl)), "comp": G.new_comp("pmux", n1, 90), "group": "", "rail": ""}
+    elif how == "change":
+        bad = {"op": "change_comp", "name": u, "comp": G.new_comp("converter", n1, 90), "group": "", "rail": ""}
+    elif how == "del":
+        bad = {"op": "del_comp", "name": u, "del_childs": rng.random() < 0.5}
+    else:
+        bad = {"op": "set_comp_phases", "name": u, "conf": {"names": ["p1"]}}
+    run.apply(bad)
+    ctx.stats["stale_name:rejected_by:%s" % how] += 1
+    # U comes into existence ...
+    as_rail = rng.random() < 0.6
+    if as_rail:
+        mk = rng.choice([{"op": "add_comp", "parent": par, "comp": G.new_comp("converter", n1, 91), "group": "", "rail": u},
+                         {"op": "add_source", "comp": G.new_comp("source", n1, 91), "group": "", "rail": u}])
+    else:
+        mk = {"op": "add_comp", "parent": par, "comp": G.new_comp("converter", u, 91), "group": "", "rail": ""}
+    s = run.apply(mk)
+    ctx.stats["stale_name:becomes:%s" % ("rail" if as_rail else "component")] += 1
+    if s["outcome"] != "ok":
+        return run
+    # ... and is used
+    use = rng.choice(["parent", "parent", "mux"] + ([] if as_rail else ["phases", "change", "del"]))
+    if use == "parent":
+        op = {"op": "add_comp", "parent": u, "comp": G.new_comp("pload", n2, 92), "group": "", "rail": ""}
+    elif use == "mux":
+        op = {"op": "add_comp", "parent": [u, par] if rng.random() < 0.5 else [par, u], "comp": G.new_comp("pmux", n2, 92), "group": "", "rail": ""}
+    elif use == "phases":
+        op = {"op": "set_comp_phases", "name": u, "conf": {"names": ["p1", "p2"]}}
+    elif use == "change":
+        op = {"op": "change_comp", "name": u, "comp": G.new_comp("linreg", u, 92), "group": "g1", "rail": ""}
+    else:
+        op = {"op": "del_comp", "name": u, "del_childs": True}
+    run.apply(op)
+    ctx.stats["stale_name:used_as:%s" % use] += 1
     return run
 
 
@@ -208,6 +278,10 @@ def run(ctx):
         1000 * ctx.stats.get("main:open-finding-trigger-calls", 0) / max(calls, 1))
     for c, states in sorted(causes.items()):
         ctx.stats["rejected:%s:distinct-pre-states" % c] = len(states)
+    for _ in range(ctx.n(60, 900)):
+        r = stale_name_history(ctx)
+        ctx.stats["stream:stale_name:histories"] += 1
+        check_history(ctx, r, "stale_name")
     for fid in FINDING_STREAMS:
         for _ in range(ctx.n(3, 40)):
             r = trigger_history(ctx, fid)
